@@ -443,6 +443,9 @@ fn key_of_hash(h: u64) -> Key {
     key_hashes().get(&h).copied().unwrap_or(UNKNOWN_KEY)
 }
 
+/// Fine-grained mode (`fine-*` families): agents also park at the `InCs` sites.
+pub static FINE: std::sync::atomic::AtomicBool = std::sync::atomic::AtomicBool::new(false);
+
 struct Handler;
 
 impl verif_hooks::Handler for Handler {
@@ -451,6 +454,17 @@ impl verif_hooks::Handler for Handler {
         match site {
             Site::Entries | Site::KeyTry(_) | Site::KeyWait(_) => {
                 if cx.free_run.load(Ordering::SeqCst) {
+                    return;
+                }
+                match cx.report_and_wait(Report::AtSite(site)) {
+                    Cmd::Go => {}
+                    other => panic!("harness bug: command {:?} to an agent parked at {:?}", other, site),
+                }
+            }
+            Site::InCs(_) => {
+                // Only in fine-grained mode: pause in the middle of a critical section so that other agents
+                // can do whatever they can do without the global lock.
+                if !FINE.load(Ordering::SeqCst) || cx.free_run.load(Ordering::SeqCst) {
                     return;
                 }
                 match cx.report_and_wait(Report::AtSite(site)) {
